@@ -640,6 +640,8 @@ def run(ctx):
     C08._joint(ctx, py)
     _recursion(ctx, py)
     _result(ctx, py)
+    from props import helpers
+    helpers.interpolate_pva(ctx, py, "C11")
     _standin(ctx, py)
 
 
